@@ -23,6 +23,8 @@ def common(tier):
         J('pending3-b24-4:H1E1', 'pending', dict(n=3, batch_bytes=SMALLB), dict(H=1, E=1), dict(unrep=4)),
         J('pending3-b24:H3', 'pending', dict(n=3, batch_bytes=SMALLB), dict(H=3), dict(unrep=6)),
         J('pipeline3-b24:H2R1', 'reconnect_pipeline', dict(n=3, batch_bytes=SMALLB), dict(H=2, R=1), dict(unrep=4)),
+        J('deposed2x3-b24:H2R2', 'deposed_twice', dict(n=3, batch_bytes=SMALLB), dict(H=2, R=2)),
+        J('deposed2x3:H2R2E1', 'deposed_twice', dict(n=3), dict(H=2, R=2, E=1)),
         J('forwarded3:H1E1X1', 'forwarded', dict(n=3), dict(H=1, E=1, X=1)),
         J('fig8-3:E2H1R2', 'fig8', dict(n=3), dict(E=2, H=1, R=2)),
     ]
